@@ -13,6 +13,8 @@ RULE = ("a generated schema document (either draft), 6 instances, and a decorati
         "of an unknown keyword with any JSON value, incl. names that differ from a standard keyword only in letter case (~4%: class of "
         "known finding D4); 3 %: a 2020-12 root that only refers to a Loader document declaring draft-07 / 2020-12 / nothing, which holds "
         "unevaluated* over overlapping anyOf / oneOf branches, decorations (incl. unreferenced definitions that mention unevaluated*) on the root only; "
+        "4 %: a reference (in both documents) whose JSON Pointer walks into the value of an unknown keyword that the decoration adds "
+        "(root, a definition, an embedded resource; schema-like, boolean, scalar and array values): both must be refused by Resolve; "
         "6 %: dynamic-scope topologies, half of them with most resources entered by pointer at an interior bare $ref. Observed on the real package directly: verdict vector of decorated == undecorated, and Unmarshal accepts. "
         "Non-trivial: >= 2 keywords; distinct = operation text")
 ASSUMPTIONS = ["decorations introduce no $id / anchors (they would legitimately change resolution)"]
@@ -271,6 +273,79 @@ def remote_draft_case(rng, tier):
     return {"op": "decorate", "args": args, "meta": {"kw": gs.count_keywords(remote) + 1, "folded": folded, "remote_draft": declared or "none"}}
 
 
+XKEYS = ["x-types", "components", "x-defs", "schemas", "$types", "defs", "Defs", "x-foo", "nullable", "id"]
+
+
+def into_unknown_case(rng, draft, doc):
+    """A reference whose JSON Pointer walks INTO the value of an unknown keyword. An unknown keyword's value is no schema location
+    (whatever it looks like: schema-like objects, booleans, scalars, arrays), so the undecorated document — where the keyword is
+    absent — and the decorated one — where it is present, at the root, in a definition or in an embedded resource — must both be refused
+    by Resolve. The reference is in BOTH documents; the decoration is the unknown keyword alone."""
+    dk = "$defs" if draft == "2020" else "definitions"
+    a = deep_copy(doc)
+    K = rng.choice(XKEYS)
+    names = rng.sample(["pos", "t", "a", "0", "x/y", "é"], rng.randint(1, 3))
+    leaf = lambda: rng.choice([Obj([("type", "integer")]), Obj([("minimum", Num("0"))]), Obj(), True, False, Obj([("const", "k")]),
+                               Obj([("$ref", "#")]), Obj([("type", "string")]), Num("1"), "s", None, [Obj([("type", "null")]), True],
+                               Obj([("properties", Obj([("p", Obj([("type", "number")]))]))]), Obj([("sub", Obj([("type", "boolean")]))])])
+    val = Obj([(nm, leaf()) for nm in names]) if rng.random() < 0.85 else rng.choice([[leaf(), leaf()], leaf()])
+    # the pointer below K
+    below = []
+    cur = val
+    for _ in range(3):
+        if isinstance(cur, Obj) and cur.kvs and rng.random() < 0.9:
+            k, cur = rng.choice(cur.kvs)
+            below.append(k)
+        elif isinstance(cur, list) and cur:
+            i = rng.randrange(len(cur))
+            below.append(str(i))
+            cur = cur[i]
+        else:
+            break
+        if rng.random() < 0.5:
+            break
+    if rng.random() < 0.1:
+        below.append("nosuch")
+    where = rng.choice(["root", "root", "def", "emb"])
+    if a.get(dk) is not None and not isinstance(a.get(dk), Obj):
+        where = "root"
+    if where == "root":
+        prefix, holder_path = [], []
+    else:
+        if a.get(dk) is None:
+            a.set(dk, Obj())
+        h = "holder%d" % rng.randint(0, 9)
+        if a.get(dk).get(h) is not None:
+            return None
+        a.get(dk).set(h, Obj([("$id", "http://x.test/c18/h.json")] if where == "emb" else []) if rng.random() < 0.7 or where == "emb"
+                      else Obj([("type", "object")]))
+        prefix, holder_path = [dk, h], [dk, h]
+    from ..gen_refs import ptr_escape, frag_encode
+    frag = frag_encode("".join("/" + ptr_escape(x) for x in ([] if where == "emb" else prefix) + [K] + below))
+    ref = ("http://x.test/c18/h.json#" if where == "emb" else "#") + frag
+    refkw = "$ref" if draft == "7" or rng.random() < 0.85 else "$dynamicRef"
+    if isinstance(a.get("properties"), Obj):
+        a.get("properties").set("zzref", Obj([(refkw, ref)]))
+    elif a.get("properties") is None:
+        a.set("properties", Obj([("zzref", Obj([(refkw, ref)]))]))
+    else:
+        return None
+    b = deep_copy(a)
+    o = b
+    for seg in holder_path:
+        o = o.get(seg)
+    if o.get(K) is not None:
+        return None
+    o.set(K, val)
+    if rng.random() < 0.3:
+        b, _ = decorate(rng, b, draft)
+        if any(kk.lower() in ("$ref", "properties", dk) and kk not in ("$ref", "properties", dk) for kk in b.keys()):
+            return None
+    insts = [gs.gen_instance(rng) for _ in range(3)] + [Obj([("zzref", rng.choice([Num("1"), "s", Num("-1"), None, Obj()]))]) for _ in range(3)]
+    return {"op": "decorate", "args": {"schema": a, "schema2": b, "insts": insts},
+            "meta": {"kw": gs.count_keywords(a) + 1, "folded": False, "into_unknown": where}}
+
+
 def gen(rng, tier, n):
     from . import c07
     ops = []
@@ -340,6 +415,11 @@ def gen(rng, tier, n):
         c = gs.Ctx(rng, draft, depth=rng.choice([1, 2, depth]), meta=0)
         doc = gs.gen_document(c, rng.choice(gs.D7_URIS) if draft == "7" else None)
         if not isinstance(doc, Obj):
+            continue
+        if rng.random() < 0.05:
+            o = into_unknown_case(rng, draft, doc)
+            if o is not None:
+                ops.append(o)
             continue
         doc2, folded = decorate(rng, doc, draft)
         if draft == "2020" and rng.random() < 0.15 and isinstance(doc2, Obj) and doc2.get("definitions") is None and doc2.get("$defs") is None:
